@@ -679,16 +679,27 @@ fn install_panic_hook() {
                 .map(|l| (l.file().to_string(), l.line()))
                 .unwrap_or_default();
             let bt = std::backtrace::Backtrace::force_capture().to_string();
+            if std::env::var("VERIF_BT").is_ok() {
+                eprintln!("{bt}");
+            }
             let mut frames = vec![];
             for l in bt.lines() {
                 let l = l.trim();
                 // lines look like "12: crate::module::function" (followed by an "at file:line" line)
                 if let Some((idx, name)) = l.split_once(": ") {
-                    if idx.chars().all(|c| c.is_ascii_digit())
-                        && (name.contains("spl_frontend::") || name.contains("lsp4spl_sim::"))
-                        && !name.contains("lsp4spl_sim::h::")
-                    {
-                        frames.push(name.to_string());
+                    let own = (name.starts_with("simcheck::") && !name.starts_with("simcheck::h::"))
+                        || name.starts_with("spl_frontend::")
+                        || name.starts_with("<spl_frontend::")
+                        || name.starts_with("<simcheck::");
+                    if idx.chars().all(|c| c.is_ascii_digit()) && own {
+                        // the shadow binary is called simcheck; the code is lsp4spl's
+                        let mut n = name.replace("simcheck::", "lsp4spl::");
+                        while let Some(stripped) = n.strip_suffix("::{{closure}}") {
+                            n = stripped.to_string();
+                        }
+                        if frames.last() != Some(&n) {
+                            frames.push(n);
+                        }
                     }
                 }
             }
